@@ -270,6 +270,13 @@ def build_scenarios(prop, tier, rnd):
             big = [{"op": "put", "k": 1, "c": "A"}, {"op": "abort", "k": 1, "c": "M"}, {"op": "abort", "k": 2, "c": "H"}, {"op": "put", "k": 2, "c": "B"},
                    {"op": "abort", "k": 2, "c": "M"}, {"op": "put", "k": 3, "c": "M"}, {"op": "abort", "k": 3, "c": "M"}, {"op": "abort", "k": 4, "c": "G"},
                    {"op": "reopen"}, {"op": "abort", "k": 1, "c": "H"}, {"op": "put", "k": 4, "c": "C"}]
+            # abandoned transactions with ONE failing filesystem call somewhere in the abandonment (fault histories, judged by the
+            # C13 conjunct of TraceSeq!FaultFails and the ordinary C14 ones)
+            fa = [[{"op": "put", "k": 1, "c": "A"}, {"op": "abort", "k": 1, "c": "B"}, {"op": "abort", "k": 2, "c": "A"}, {"op": "abort", "k": 2, "c": "C"},
+                   {"op": "put", "k": 2, "c": "B"}, {"op": "abort", "k": 1, "c": "G"}, {"op": "abort", "k": 3, "c": "E"}, {"op": "put", "k": 3, "c": "A"}]]
+            for i, ops in enumerate(fa):
+                for ch in (0, 6, 3):
+                    add(ops, {"kt": "string", "n": 10000, "sync": True}, {"mode": "fault", "errno": ["EIO", "ENOSPC"][ch % 2]}, chunk=ch)
             # transactions abandoned by a panic of their owner (unwinding drops them) - same guarantee
             pan = [{"op": "put", "k": 1, "c": "A"}, {"op": "abort", "k": 1, "c": "B", "panic": True}, {"op": "abort", "k": 2, "c": "G", "panic": True},
                    {"op": "put", "k": 2, "c": "B"}, {"op": "abort", "k": 2, "c": "M", "panic": True}, {"op": "abort", "k": 3, "c": "E", "panic": True},
